@@ -207,3 +207,42 @@ func refClasses(b *types.Block) map[string]bool {
 	}
 	return out
 }
+
+// memoryOnlyPayout is what the harness puts into the Payout of every v1 revision it builds: the member is not
+// transmitted (every decoder fills in 2^128-1; the library gives a revision the payout of the contract it revises),
+// so the in-memory block, its decoded copies and the contract itself all hold different values there.
+var memoryOnlyPayout = types.NewCurrency64(777_777)
+
+// v1RefClasses names the ways in which a v1 block touches one file contract more than once, for blocks whose
+// revisions hold a payout in memory that no decoder would fill in.
+func v1RefClasses(b *types.Block) map[string]bool {
+	roles := map[types.FileContractID][]string{}
+	distinct := false
+	for _, t := range b.Transactions {
+		for i := range t.FileContracts {
+			id := t.FileContractID(i)
+			roles[id] = append(roles[id], "formed")
+		}
+		for _, r := range t.FileContractRevisions {
+			roles[r.ParentID] = append(roles[r.ParentID], "revised")
+			if r.FileContract.Payout != types.MaxCurrency {
+				distinct = true
+			}
+		}
+		for _, sp := range t.StorageProofs {
+			roles[sp.ParentID] = append(roles[sp.ParentID], "proved")
+		}
+	}
+	out := map[string]bool{}
+	if !distinct {
+		return out
+	}
+	for _, rs := range roles {
+		for i := range rs {
+			for j := i + 1; j < len(rs); j++ {
+				out["v1:"+rs[i]+"+"+rs[j]] = true
+			}
+		}
+	}
+	return out
+}
